@@ -239,7 +239,7 @@ def gen_model(r, *, budget=6000, max_T=4, force=None):
         ivars = [v for v in uvars if v in disc]
         e = N(r.randint(-2, 2))
         for v in ivars:
-            e = ["add", e, ["mul", N(r.choice([1, 2, -1, 3])), V(v)]]
+            e = ["add", e, ["mul", N(r.choice([1, 2, -1, 3, 50, 100])), V(v)]]
         r.shuffle(ivars)
         funcs[-1] = _fn("utility", ivars, e, ints=True)
         meta["intutil"] = True
